@@ -481,11 +481,11 @@ Definition msched (s : st) (stt : bool) : sched := {| ob := OMulti c s cr cd; st
 Inductive J : sched -> mon -> Prop :=
  | Jrun s stt m x : pcv s <> PDone -> pcv s <> PFinished -> mon_ok m -> PInv (toP s) x -> Rx x (mx m) ->
      MSPot.fwd x = Some (n_ s) -> exhausted s = false -> J (msched s stt) m
- | Jdone s stt m : (pcv s = PDone \/ pcv s = PFinished) -> mon_ok m -> fwd_total (cnt (mx m)) = Inst.TC tj N S_ -> J (msched s stt) m.
+ | Jdone s stt m : (pcv s = PDone \/ pcv s = PFinished) -> exhausted s = true -> mon_ok m -> fwd_total (cnt (mx m)) = Inst.TC tj N S_ -> J (msched s stt) m.
 
 Lemma J_step sch m : J sch m -> mon_ok m -> good_step pms J sch m.
 Proof.
-  intros HJ _. unfold good_step. inversion HJ as [s stt m0 x Hd Hf Hm HI HR Hfw Hex|s stt m0 Hpc Hm Htot]; subst; clear HJ.
+  intros HJ _. unfold good_step. inversion HJ as [s stt m0 x Hd Hf Hm HI HR Hfw Hex|s stt m0 Hpc Hexd Hm Htot]; subst; clear HJ.
   - destruct (next_agrees s x HI Hd Hf) as (s' & a & Hnext & Hres & Hf' & Hexh & Hexd & Hem & Hn').
     pose proof (Pstep_ok s x HI) as Hstep. rewrite Hres in Hstep. destruct Hstep as (x' & Hpex & HI').
     unfold Sched.next, msched. cbn [ob]. rewrite Hnext.
@@ -502,7 +502,7 @@ Proof.
     rewrite (mon_step_ok pms sch' a {| mx := X; merr_ := None; mcount := cnt0 |} _ eq_refl Hexec).
     + split; [reflexivity|].
       destruct (exhausted s') eqn:Ee.
-      * apply Jdone; [left; apply Hexd; reflexivity|reflexivity|].
+      * apply Jdone; [left; apply Hexd; reflexivity|exact Ee|reflexivity|].
         cbn [mx] in Rtot |- *. rewrite Rtot. apply (MSPot.done_total (Inst.TC tj) N S_ lb (toP s') x'); [split; [exact HPhi'|split; [exact Hrr'|exact HI'rest]]|].
         cbn [toP MSPot.pcv]. rewrite (proj1 Hexd eq_refl). reflexivity.
       * eapply (Jrun s' true _ x'); try assumption.
@@ -515,7 +515,7 @@ Proof.
     + cbn [get_max_n sch' ob oz_ok xN pms]. apply Z.eqb_refl.
   - unfold Sched.next, msched. cbn [ob]. unfold Multistage.next.
     assert (Hr : Multistage.resume 3 c s = (s, StopIteration)) by (destruct s as [q n r sn e]; cbn [pcv] in Hpc; destruct Hpc as [-> | ->]; reflexivity).
-    rewrite Hr. apply (Jdone _ true); [right; reflexivity|exact Hm|exact Htot].
+    rewrite Hr. apply (Jdone _ true); [right; reflexivity|exact Hexd|exact Hm|exact Htot].
 Qed.
 
 (* every run of next() on a Multistage object built on this configuration: no executor error, n / r / max_n agree, no exception;
@@ -532,9 +532,33 @@ Proof.
   pose proof (run_nexts pms J J_step k _ _ HJ0 eq_refl) as H.
   destruct (run_ops pms (msched init false) mon0 (repeat Next k)) as [[s' m'] ls]. destruct H as (HJ & H1 & H2).
   split; [assumption|]. split; [assumption|].
-  intros He. inversion HJ as [s stt m0 x Hd Hf Hm HI HR Hfw Hex|s stt m0 Hpc Hm Htot]; subst.
+  intros He. inversion HJ as [s stt m0 x Hd Hf Hm HI HR Hfw Hex|s stt m0 Hpc Hexd Hm Htot]; subst.
   - cbn [is_exhausted msched ob] in He. congruence.
   - exact Htot.
+Qed.
+
+(* C09 flags: is_running True after every request; is_exhausted True exactly from EndReverse on *)
+Definition is_endrev (a : action) : bool := match a with EndReverse => true | _ => false end.
+Lemma J_flags sch m : J sch m -> flag_rule is_endrev (fst (Sched.next sch)) (snd (Sched.next sch)).
+Proof.
+  intros HJ. split; [apply next_started|].
+  inversion HJ as [s stt m0 x Hd Hf Hm HI HR Hfw Hex|s stt m0 Hpc Hexd Hm Htot]; subst; clear HJ.
+  - destruct (next_agrees s x HI Hd Hf) as (s' & a & Hnext & _ & _ & Hexh & _).
+    unfold Sched.next, msched. cbn [ob]. rewrite Hnext. cbn [fst snd is_exhausted ob]. rewrite Hexh. destruct a; reflexivity.
+  - unfold Sched.next, msched. cbn [ob]. unfold Multistage.next.
+    assert (Hr : Multistage.resume 3 c s = (s, StopIteration)) by (destruct s as [q n r sn e]; cbn [pcv] in Hpc; destruct Hpc as [-> | ->]; reflexivity).
+    rewrite Hr. cbn [fst snd is_exhausted ob mk exhausted]. exact Hexd.
+Qed.
+Theorem multistage_cfg_flags : forall k,
+  let '(_, _, ls) := run_ops pms (msched init false) mon0 (repeat Next k) in Forall (line_fl (flag_rule is_endrev)) ls.
+Proof.
+  intros k.
+  assert (HJ0 : J (msched init false) mon0).
+  { apply (Jrun init false mon0 (MSPot.init_x)); try discriminate; try reflexivity.
+    - pose proof (MSPot.inv_init (Inst.TC tj) N S_ HN) as H0. exact (H0 HS S_nonneg lb).
+    - repeat split; reflexivity. }
+  pose proof (run_nexts_fl pms J (flag_rule is_endrev) (fun s m HJ Hm => conj (J_step s m HJ Hm) (J_flags s m HJ)) k _ _ HJ0 eq_refl) as H.
+  destruct (run_ops pms (msched init false) mon0 (repeat Next k)) as [[s' m'] ls]. destruct H as (_ & _ & _ & H). exact H.
 Qed.
 End BRIDGE.
 Print Assumptions multistage_cfg_run.
